@@ -61,6 +61,10 @@ func (k Keeper) IsProofSessionHeightWithinTolerance(ctx sdk.Ctx, relaySessionBlo
 	if relaySessionBlockHeight <= 0 {
 		return false
 	}
+	// a session starts at the first block of a session period
+	if (relaySessionBlockHeight-1)%k.posKeeper.BlocksPerSession(ctx) != 0 {
+		return false
+	}
 	latestSessionHeight := k.GetLatestSessionBlockHeight(ctx)
 	tolerance := types.GlobalPocketConfig.ClientSessionSyncAllowance * k.posKeeper.BlocksPerSession(ctx)
 	minHeight := latestSessionHeight - tolerance
